@@ -321,7 +321,9 @@ def check(pid, tier, record_baseline=False, force_escalation=False):
     obligations.sort(key=lambda o: o.id)
 
     baseline = load_json(BASELINE_PATH, {})
-    base_ids = set(baseline.get(pid, {}).get(tier, [])) | set(baseline.get(pid, {}).get("escalation", []))
+    base_ids = set(baseline.get(pid, {}).get(tier, []))
+    if base_ids:      # (no recorded baseline for this tier: every failed obligation counts)
+        base_ids |= set(baseline.get(pid, {}).get("escalation", []))
     known = load_json(KNOWN_PATH, {"findings": [], "fixed": []})
 
     failed = [o for o in obligations if o.status == "failed"]
